@@ -14,6 +14,7 @@ mod props_c01;
 mod props_c17;
 mod props_data;
 mod props_lazy;
+mod props_far;
 mod props_sizes;
 mod props_struct;
 mod props_values;
